@@ -29,6 +29,9 @@ int64_t sim_mix(int64_t a, const char *s, int64_t b, int64_t c) {
     h ^= (uint64_t)b * 31 + (uint64_t)c * 131;
     return (int64_t)(h & 0x7fffffffffffffffull);
 }
+/* kills the simulated process that executes the extern call (standalone: the VM; isolated: the co-process) */
+extern void simk_kill_self(int sig);
+int64_t sim_die(int64_t code) { (void)code; simk_kill_self(9); return 0; }
 /* opaque handles cross the pipe as 64-bit values */
 int64_t sim_handle_new(int64_t x) { return (int64_t)0x7f0000000000ll + x * 4096 + 8; }
 int64_t sim_handle_get(int64_t h) { return (h - 0x7f0000000000ll - 8) / 4096; }
